@@ -64,6 +64,11 @@ def gen_spec(rng):
                                                           rng.choice([2e-6, 4e-6, 1e-5, 1e-4]))
         vars_.append({'name': n, 'units': rng.choice(UNITS), 'missing': miss,
                       'vals': vals, 'holes': holes})
+        if rng.random() < 0.25:
+            # a single-precision variable (what a netCDF-backed source delivers) whose
+            # missing code is a float32 without an exact decimal form
+            vars_[-1]['dtype'] = 'f'
+            vars_[-1]['missing'] = rng.choice([-999.9, -9999.9, -99.99, -9999, -888.8])
     ncom = rng.randrange(0, 6)
     comments = {k: rng.choice(['nobody@example.org', 'NASA DC-8', 'R0', 'see header',
                                'value: with colon', 'x', '', '  ', 'N/A'])
@@ -95,10 +100,13 @@ def build_source(spec):
 
     def mk_dep(v):
         miss = v['missing']
-        var = f.createVariable(v['name'], 'd', ('POINTS',), missing_value=miss)
+        dt = v.get('dtype', 'd')
+        if dt == 'f':
+            miss = np.float32(miss)
+        var = f.createVariable(v['name'], dt, ('POINTS',), missing_value=miss)
         var.units = v['units']
         var.standard_name = v['name']
-        a = np.ma.masked_array(np.array(v['vals'], dtype='d'),
+        a = np.ma.masked_array(np.array(v['vals'], dtype=dt),
                                mask=np.zeros(spec['nrec'], dtype=bool))
         for h in v['holes']:
             a[h] = np.ma.masked
@@ -138,12 +146,18 @@ def truth_of(spec):
         units[v['name']] = v['units']
         missing[v['name']] = v['missing']
         a = np.array(v['vals'], dtype='d')
+        mv = v['missing']
+        if v.get('dtype') == 'f':
+            a = np.array(v['vals'], dtype='f').astype('d')
+            mv = float(np.float32(v['missing']))
+            missing[v['name']] = mv
         m = np.zeros(spec['nrec'], dtype=bool)
         for h in v['holes']:
             m[h] = True
-        m |= (a == v['missing'])
+        m |= (a == mv)
         vals[v['name']] = (a, m)
-    return {'names': names, 'units': units, 'missing': missing, 'vals': vals}
+    return {'names': names, 'units': units, 'missing': missing, 'vals': vals,
+            'f32': [v['name'] for v in spec['vars'] if v.get('dtype') == 'f']}
 
 
 def canon_from_library(f):
@@ -180,6 +194,9 @@ def compare(truth, got, what, check_ivar_units=True):
             g = got['missing'].get(k)
             try:
                 same = float(g) == float(truth['missing'][k])
+                if not same and k in truth.get('f32', ()):
+                    # a single-precision code is written with its shortest decimal form
+                    same = bool(close7(float(g), float(truth['missing'][k])))
             except Exception:
                 same = False
             if not same:
@@ -249,7 +266,10 @@ def gen_op(rng, st):
                            {'op': 'collect'}]))
     ops.append({'op': 'second', 'cid': cid, 'from': rng.choice(['ack', 'path']),
                 # the second output goes to a new path, or over the first output
-                'to': rng.choice(['fresh', 'fresh', 'same'])})
+                'to': rng.choice(['fresh', 'fresh', 'same']),
+                # the user converts the time axis of the file just read (other unit,
+                # scaled values) before writing it again
+                'retime': rng.random() < 0.3})
     if rng.random() < 0.4:
         # a file produced by the stub peer (an instrument team): non-unit scale
         # factors, then library read -> write -> read
@@ -404,8 +424,15 @@ def apply(st, op):
         from PseudoNetCDF.pncgen import pncgen
         try:
             g = _open(src, 'explicit')
+            if op.get('retime'):
+                tv = g.variables[g.INDEPENDENT_VARIABLE]
+                tv.units = 'hours'
+                # (kept to the seven digits the format stores, so that "a second
+                # cycle changes no data" still applies literally)
+                tv[:] = [float('%.6e' % (x / 3600.)) for x in np.asarray(tv[:], dtype='d')]
+                w.probe('time_axis_converted_before_second_write')
             first = canon_from_library(g)
-            same = op.get('to') == 'same' and wr['life'] != 'retained'
+            same = op.get('to') == 'same' and wr['life'] != 'retained' and not op.get('retime')
             p2 = wr['path'] if same else w.path('second_%d.ffi1001' % op['cid'])
             h2 = pncgen(g, p2, format='ffi1001', verbose=0)
             a2 = p2 + '.ack'
